@@ -259,3 +259,119 @@ fn verif_native_preprocess_stream() {
     }
     verif_out(&format!("VERIF-NATIVE name={} evaluated={} distinct={}", name, evaluated, streams));
 }
+
+/// C01 / C04 end to end on the real assembler (text -> image), against an encoder written here from the ISA tables only:
+/// every operate / memory / control instruction x registers {0,1,5,7} (lower and upper case) x 17 boundary immediates spelled in
+/// decimal and in hex (a literal is judged as its 16-bit value) x PC-relative instructions with the label at distances
+/// {min-1, min, -1, 0, 1, max, max+1} before / after, and with a literal offset; trap aliases; the stack mnemonics with the
+/// flag on. A statement whose operands fit assembles to exactly the expected word; one whose operand does not fit is rejected.
+#[test]
+fn verif_native_assemble_encodes() {
+    let name = "verif_native_assemble_encodes";
+    let handle = std::thread::spawn(move || {
+        let _ = verif_catch(|| crate::features::init("stack".parse().unwrap()));
+        let mut evaluated = 0u64;
+        let mut rejected = 0u64;
+        let regs = [0u16, 1, 5, 7];
+        let vals: [i32; 17] = [-32768, -33, -32, -17, -16, -1, 0, 1, 15, 16, 31, 32, 255, 256, 32767, 65535, 65520];
+        let rname = |r: u16, up: bool| if up { format!("R{}", r) } else { format!("r{}", r) };
+        let sign16 = |v: i32| -> i32 { let w = (v as u32 & 0xFFFF) as i32; if w >= 0x8000 { w - 0x10000 } else { w } };
+        // (source of ONE statement placed first in the program, expected word or None when it must be rejected)
+        let mut cases: Vec<(String, Option<u16>)> = Vec::new();
+        for (mn, op) in [("add", 0x1000u16), ("and", 0x5000), ("ADD", 0x1000), ("And", 0x5000)] {
+            for dr in regs { for s1 in regs {
+                for s2 in regs { cases.push((format!("{} {}, {}, {}", mn, rname(dr, false), rname(s1, true), rname(s2, false)), Some(op | dr << 9 | s1 << 6 | s2))); }
+                for v in vals { for hex in [false, true] {
+                    let lit = if hex { format!("x{:X}", v as u32 & 0xFFFF) } else { format!("#{}", v) };
+                    let s = sign16(v);
+                    let want = if (-16..=15).contains(&s) { Some(op | dr << 9 | s1 << 6 | 0x20 | (s as u16 & 0x1F)) } else { None };
+                    if dr == s1 || v == -1 { cases.push((format!("{} {} {} {}", mn, rname(dr, true), rname(s1, false), lit), want)); }
+                } }
+            } }
+        }
+        for dr in regs { for sr in regs { cases.push((format!("not {}, {}", rname(dr, false), rname(sr, false)), Some(0x9000 | dr << 9 | sr << 6 | 0x3F))); } }
+        for (mn, op) in [("ldr", 0x6000u16), ("str", 0x7000), ("LDR", 0x6000), ("Str", 0x7000)] {
+            for dr in regs { for base in regs { for v in vals { for hex in [false, true] {
+                let lit = if hex { format!("x{:X}", v as u32 & 0xFFFF) } else { format!("#{}", v) };
+                let s = sign16(v);
+                let want = if (-32..=31).contains(&s) { Some(op | dr << 9 | base << 6 | (s as u16 & 0x3F)) } else { None };
+                cases.push((format!("{} {}, {}, {}", mn, rname(dr, false), rname(base, false), lit), want));
+            } } } }
+        }
+        for base in regs {
+            cases.push((format!("jmp {}", rname(base, false)), Some(0xC000 | base << 6)));
+            cases.push((format!("JSRR {}", rname(base, true)), Some(0x4000 | base << 6)));
+            cases.push((format!("push {}", rname(base, false)), Some(0xD400 | base << 6)));
+            cases.push((format!("POP {}", rname(base, true)), Some(0xD000 | base << 6)));
+        }
+        cases.push(("ret".into(), Some(0xC1C0))); cases.push(("rti".into(), Some(0x8000))); cases.push(("rets".into(), Some(0xD800)));
+        for (i, al) in ["getc", "out", "puts", "in", "putsp", "halt", "putn", "reg"].iter().enumerate() { cases.push((al.to_string(), Some(0xF020 + i as u16))); cases.push((al.to_uppercase(), Some(0xF020 + i as u16))); }
+        for v in vals { for hex in [false, true] {
+            let lit = if hex { format!("x{:X}", v as u32 & 0xFFFF) } else { format!("#{}", v) };
+            let w = v as u32 & 0xFFFF;
+            cases.push((format!("trap {}", lit), if w < 256 { Some(0xF000 | w as u16) } else { None }));
+        } }
+        // PC-relative with a literal offset (statement 1, so the value is stored as a reference and turned back into the offset)
+        let pcrel: [(&str, u16, i32); 12] = [("br", 0x0E00, 9), ("brn", 0x0800, 9), ("brz", 0x0400, 9), ("brp", 0x0200, 9), ("brnz", 0x0C00, 9), ("brzp", 0x0600, 9), ("brnp", 0x0A00, 9), ("brnzp", 0x0E00, 9),
+            ("jsr", 0x4800, 11), ("call", 0xDC00, 10), ("ld r5,", 0x2A00, 9), ("lea r1,", 0xE200, 9)];
+        let pcrel2: [(&str, u16, i32); 4] = [("ldi r7,", 0xAE00, 9), ("st r0,", 0x3000, 9), ("sti r1,", 0xB200, 9), ("LD R0,", 0x2000, 9)];
+        for (mn, op, bits) in pcrel.iter().chain(pcrel2.iter()) {
+            let half = 1i32 << (bits - 1);
+            let mask = ((1u32 << bits) - 1) as u16;
+            if *mn == "call" { continue; }   // the extension's `call` takes a label only
+            for v in [-half - 1, -half, -1, 0, 1, half - 1, half] {
+                cases.push((format!("{} #{}", mn, v), if v >= -half && v < half { Some(op | (v as u16 & mask)) } else { None }));
+            }
+        }
+        for (src, want) in &cases {
+            evaluated += 1;
+            let text = format!("{}\nhalt\n", src);
+            let got = verif_catch(|| image_of(leak(&text)));
+            let fail = |d: String| { verif_out(&format!("VERIF-COUNTEREXAMPLE name={} input={:?} detail={}", name, text, d)); panic!("violation"); };
+            match (got, want) {
+                (Err(m), _) => fail(format!("panic: {}", m)),
+                (Ok(Ok(img)), Some(w)) => if img.len() != 3 || img[1] != *w || img[2] != 0xF025 { fail(format!("assembles to {:04x?}, the ISA encoding is {:04x}", &img[1..], w)); },
+                (Ok(Ok(img)), None) => fail(format!("accepted (as {:04x?}) although an operand does not fit its field", &img[1..])),
+                (Ok(Err(())), Some(w)) => fail(format!("rejected although every operand fits (ISA encoding {:04x})", w)),
+                (Ok(Err(())), None) => { rejected += 1; }
+            }
+        }
+        // PC-relative with labels: reference at statement index `lead`, label `d` statements after the incremented PC
+        for (mn, op, bits) in pcrel.iter().chain(pcrel2.iter()) {
+            let half = 1i32 << (bits - 1);
+            let mask = ((1u32 << bits) - 1) as u16;
+            for d in [-half - 1, -half, -2, -1, 0, 1, half - 1, half] { for lead in [0usize, 2] {
+                let mut src = String::new();
+                let mut index_of_ref = lead;
+                for _ in 0..lead { src.push_str("not r3, r3\n"); }
+                if d >= 0 {
+                    src.push_str(&format!("{} Target\n", mn));
+                    if d > 0 { src.push_str(&format!(".blkw #{}\n", d)); }
+                    src.push_str("Target halt\n");
+                } else if d == -1 {
+                    src.push_str(&format!("Target {} Target\n", mn));
+                } else {
+                    src.push_str("Target halt\n");
+                    if -d - 2 > 0 { src.push_str(&format!(".blkw #{}\n", -d - 2)); }
+                    src.push_str(&format!("{} Target\n", mn));
+                    index_of_ref = lead + 1 + (-d - 2) as usize;
+                }
+                evaluated += 1;
+                let want = if d >= -half && d < half { Some(op | (d as u16 & mask)) } else { None };
+                let got = verif_catch(|| image_of(leak(&src)));
+                let fail = |m: String| { verif_out(&format!("VERIF-COUNTEREXAMPLE name={} input={:?} detail={}", name, src, m)); panic!("violation"); };
+                match (got, want) {
+                    (Err(m), _) => fail(format!("panic: {}", m)),
+                    (Ok(Ok(img)), Some(w)) => if img.get(1 + index_of_ref) != Some(&w) { fail(format!("word {} is {:04x?}, the ISA encoding for a label {} statements past the incremented PC is {:04x}", index_of_ref, img.get(1 + index_of_ref), d, w)); },
+                    (Ok(Ok(_)), None) => fail(format!("accepted although the label is {} away and the field has {} bits", d, bits)),
+                    (Ok(Err(())), Some(w)) => fail(format!("rejected although the distance {} fits {} bits (ISA encoding {:04x})", d, bits, w)),
+                    (Ok(Err(())), None) => { rejected += 1; }
+                }
+            } }
+        }
+        (evaluated, rejected)
+    });
+    let (evaluated, rejected) = match handle.join() { Ok(x) => x, Err(_) => panic!("violation") };
+    assert!(rejected > 0 && rejected < evaluated, "degenerate enumeration");
+    verif_out(&format!("VERIF-NATIVE name={} evaluated={} distinct={}", name, evaluated, rejected));
+}
